@@ -23,9 +23,10 @@ struct Case { base: usize, cfg: Cfg, steps: Vec<Step> }
 fn prim(v: &Val, bad_stream: &Option<Primitive>) -> Primitive {
     match v {
         Val::Int(i) => Primitive::Integer(*i),
-        Val::Name(t) => Primitive::Name(format!("Tag{}", t).into()),
+        // every third name carries characters that need a #xx escape when written (and the '#' itself)
+        Val::Name(t) => Primitive::Name(match t % 3 { 0 => format!("Tag#{} with space/and(delims)", t), _ => format!("Tag{}", t) }.into()),
         Val::Str(t) => Primitive::String(PdfString::new(format!("string #{} (with) parens\\", t).as_bytes().into())),
-        Val::Dict(t) => { let mut d = Dictionary::new(); d.insert("Tag", Primitive::Integer(*t as i32)); d.insert(format!("K{}", t % 3), Primitive::Array(vec![Primitive::Integer(1), Primitive::Number(0.5)])); Primitive::Dictionary(d) }
+        Val::Dict(t) => { let mut d = Dictionary::new(); d.insert("Tag", Primitive::Integer(*t as i32)); d.insert(if t % 4 == 0 { format!("K#{} x", t % 3) } else { format!("K{}", t % 3) }, Primitive::Array(vec![Primitive::Integer(1), Primitive::Number(0.5), Primitive::Name("n#m".into())])); Primitive::Dictionary(d) }
         Val::Arr(t) => Primitive::Array(vec![Primitive::Integer(*t as i32), Primitive::Name("x".into()), Primitive::Null, Primitive::Boolean(true)]),
         Val::Stream(t, n) => {
             let mut d = Dictionary::new(); d.insert("Tag", Primitive::Integer(*t as i32));
@@ -257,6 +258,19 @@ pub fn bases(seed: u64) -> Vec<Base> {
     }
     for (i, l) in [crate::richdoc::Layout::Classic, crate::richdoc::Layout::XrefStream, crate::richdoc::Layout::Incremental].iter().enumerate() {
         if let Some(b) = make_base(&format!("rich-{}", i), crate::richdoc::write(&crate::richdoc::objects(), *l, if i == 1 { b"junk before the header\n" } else { b"" }), vec![]) { out.push(b); }
+    }
+    // a base whose object stream has more than 256 members (the index field of a rewritten cross-reference stream needs two bytes)
+    {
+        use crate::mkpdf::{dict, name, rf, Obj, W};
+        let mut w = W::new(b"", "1.5");
+        w.free(0, 0, 65535);
+        w.obj(1, 0, &dict(vec![("Type", name("Catalog")), ("Pages", rf(2))]));
+        w.obj(2, 0, &dict(vec![("Type", name("Pages")), ("Count", Obj::Int(1)), ("Kids", crate::mkpdf::arr(vec![rf(3)]))]));
+        w.obj(3, 0, &dict(vec![("Type", name("Page")), ("Parent", rf(2)), ("MediaBox", crate::mkpdf::ints(&[0, 0, 10, 10]))]));
+        let members: Vec<(u32, Obj)> = (0..300u32).map(|i| (10 + i, dict(vec![("Member", Obj::Int(i as i64)), ("Square", Obj::Int((i * i) as i64))]))).collect();
+        w.objstm(4, &members, b"\n", 0, &crate::mkpdf::flate_filter);
+        w.xref_stream(5, vec![(b"Root".to_vec(), rf(1))], 311, &[], &crate::mkpdf::flate_filter);
+        if let Some(b) = make_base("objstm-300-members", w.buf, vec![]) { out.push(b); }
     }
     for k in 0..3u64 {
         let mut s = Src::fresh(Rng::derive(seed, 900, k));
